@@ -88,7 +88,7 @@ def impl_case(tab, c):
 def coq_bytes(b):
     if len(b) <= 32:
         return "VBytes ([" + "; ".join(str(x) for x in b) + "]%N)"
-    # 7 bytes per primitive integer literal (see BimgModel.unpack63)
+    # 7 bytes per primitive integer literal (see BimgPackModel.unpack63)
     lits = "; ".join("0x" + b[i:i + 7][::-1].hex() for i in range(0, len(b), 7))
     return f"VBytes (unpack63 {len(b)} [{lits}]%uint63)"
 
@@ -544,8 +544,10 @@ def run(tier):
     except Exception as ex:  # noqa
         rep.obligation("translate:device database (features.bootable_image) + segments.py -> Gen/GenBimg.v", False, repr(ex))
     # (P) proofs
-    model_ok, mout = vlib.coq_make(["Model/BimgModel.vo"])
+    model_ok, mout = vlib.coq_make(["Model/BimgModel.vo", "Model/BimgPackModel.vo"])
     vlib.check_theorems(rep, PID, THEOREMS, ["Proofs/BimgProofs.vo"])
+    if thorough:
+        vlib.coqchk(rep, PID, THEOREMS)
     vlib.audit(rep)
     if gen is None:
         return rep.finish(rule="", trusted_base=[], checker_cmd="")
@@ -643,7 +645,7 @@ def run(tier):
             exprs = [model_expr(tables[c["table"]], c, fcbs[(c["family"], c["rev"], c["mem"])]) for c in cases]
             exprs.append("run_case 3 [VInt 150; VInt 5]")
             t1 = time.time()
-            mres = vlib.run_model_cases("c14", "Value BimgModel Uint63", exprs, shard=40 if not thorough else 100, timeout=1500, jobs=8)
+            mres = vlib.run_model_cases("c14", "Value BimgModel BimgPackModel Uint63", exprs, shard=40 if not thorough else 100, timeout=1500, jobs=8)
             vlib.log(f"[C14] model side done in {time.time() - t1:.1f} s ({len(exprs)} evaluations)")
             if mres[-1] != ("b", syn_bytes(150, 5)):
                 rep.obligation("correspondence:synthetic payload generator", False, repr(mres[-1]))
